@@ -44,6 +44,14 @@ class CallMixin:
                 st.pc[:] = tmp.pc
                 yield st, v
                 return
+            if f.id == 'ext':
+                d = e.args[0].value
+                ev_ = getattr(self.reg, 'ext_values', {})
+                if d not in ev_:
+                    raise Unsupported(f'ext(): {d} is not a declared external constant')
+                ty_ = parse_type(ev_[d], self.reg.enums)
+                yield st, V(ty_, z3.Const('ext_' + ''.join(c if c.isalnum() else '_' for c in d), ty_.sort()))
+                return
             if f.id == 'none_of':
                 ty = TOpt(parse_type(e.args[0].value, self.reg.enums))
                 yield st, V(ty, ty.none())
@@ -434,6 +442,15 @@ class CallMixin:
         for n in ast.walk(node):
             if isinstance(n, ast.Nonlocal):
                 nonlocals.update(n.names)
+        # free variables of the closure that name mutable containers of the enclosing frame: in-place
+        # mutations (xs.append(...), d[k] = v) are visible outside, like in Python
+        local_names = set(bound)
+        for n in ast.walk(node):
+            if isinstance(n, ast.Name) and isinstance(n.ctx, ast.Store):
+                local_names.add(n.id)
+        for k_, v_ in st.env.items():
+            if k_ not in local_names and not k_.startswith('$') and isinstance(v_.ty, (TSeq, TMap, TSet)):
+                nonlocals.add(k_)
         outer = dict(st.env)
         env = dict(outer)
         env.update(bound)
@@ -600,6 +617,7 @@ class CallMixin:
                 bound[names[i]] = a
         for k, v in kwargs.items():
             bound[k] = v
+        bound['__nargs__'] = mk_int(len(args) + len(kwargs))
         yield from self.call_by_contract(c, None, None, args, kwargs, st, exits, e, bound=bound)
 
     # ------------------------------------------------------------------ construction
